@@ -220,6 +220,41 @@ PROPS["C04"] = dict(
     assumptions=["vertex_offset chosen by the user does not overflow u32 (not checked by lyon)"],
 )
 
+PROPS["C08"] = dict(
+    level="proof",
+    level_text="Theorem (Props/C08.v) for an object-with-fields model: for EVERY table of persistent fields, per-field "
+               "initialiser and run function (whatever it leaves behind, also when it fails or panics part-way) whose output "
+               "depends only on the listed non-configuration fields, if no field is left untouched by the per-call preamble "
+               "then after ANY history of calls from ANY starting object a call returns exactly what a fresh object returns; "
+               "the converse (one untouched field that is read leaks) is proved too. The field tables of FillTessellator, "
+               "StrokeTessellator, BasicMonotoneTessellator and AdvancedMonotoneTessellator are REGENERATED from fill.rs / "
+               "stroke.rs / monotone.rs on every run and Coq re-proves that none has an untouched field (a new field "
+               "without a per-call reset, or a removed reset, breaks C08_*_table_complete). Reused and fresh tessellators "
+               "are compared bit-for-bit (vertices, indices relative to the buffer offset, builder call trace, Ok/Err/panic) "
+               "after every call of random histories.",
+    level_note="The frame premise (the sweep reads only the listed fields) and the translator's syntactic classification "
+               "(an assignment / clear / resize / mem::replace / begin() of the field occurs in the per-call preamble) are "
+               "assumptions about the Rust code: validated by history exploration, not proved. Capacity of recycled "
+               "vectors is not modelled (it cannot influence the output).",
+    technique="Coq theorem over a field-map model + translator-generated reset table + differential history exploration",
+    coq_targets=["theories/Props/C08.vo"],
+    props_file="theories/Props/C08.v",
+    props_module="Props.C08",
+    harness=[dict(sub="c08", profile="debug"), dict(sub="c08", profile="release")],
+    rule="histories of 1..8 (quick) / 1..30 (thorough) calls on one FillTessellator + one StrokeTessellator; each call draws: "
+         "fill or stroke; entry point (tessellate_path, tessellate, tessellate_with_ids, tessellate_polygon, builder, "
+         "builder_with_attributes) or shape (circle, rectangle, ellipse); path (lattice polygons, self-intersecting bow-tie, "
+         "curved with 0..3 attributes, empty); fill rule; orientation; tolerance (valid, or for fills 0 / negative / NaN); "
+         "join, cap, width, variable width; builder failure injected at the k-th vertex (k < 12) in 1/4 of the calls; output "
+         "buffers pre-filled with 0..9 vertices. non-trivial = a call on a tessellator that has been used before",
+    exhaustive_note="none (random histories); the theorem covers all histories under the frame premise",
+    trusted_base=["tools/gen.py gen_reset_table (regex over struct fields and the bodies of reset / tessellate_impl / "
+                  "tessellate / tessellate_with_ids / scan_active_edges / begin / builder*)",
+                  "frame premise reads_only for the real sweep"],
+    assumptions=["stroke tolerance > 0 (the stroke tessellator does not validate it; tolerance 0 recurses without bound in a "
+                 "fresh tessellator too)"],
+)
+
 PROPS["C17"] = dict(
     level="proof",
     level_text="Theorems (Props/C17.v) for ALL strings, attribute counts, stop characters, Unicode class predicates, number "
